@@ -93,13 +93,17 @@ mod verif_kani {
     }
 
     // ------------------------------------------------------------------------------------------
-    // write_all_vectored against a scripted writer (BOUNDED: <= 3 slices x <= 2 bytes, <= 6 calls)
+    // write_all_vectored against a scripted writer (BOUNDED: N slices of <= 2 bytes, <= MAX_CALLS calls).
+    // The writer checks, at EVERY call, that what it is offered is exactly the not-yet-accepted suffix
+    // (by total length; that the remaining slices ARE the suffix byte for byte is advance_slices' proof above)
+    // and never starts with an empty buffer; per call it accepts any 1..=offered bytes, or reports
+    // Interrupted, Ok(0) or a hard error.
     // ------------------------------------------------------------------------------------------
+    const MAX_CALLS: usize = 3;
     struct Script {
-        received: [u8; 8],
-        n: usize,
+        total: usize,
+        accepted: usize,
         calls: usize,
-        saw_empty_first: bool,
     }
     impl io::Write for Script {
         fn write(&mut self, buf: &[u8]) -> io::Result<usize> {
@@ -107,16 +111,15 @@ mod verif_kani {
         }
         fn write_vectored(&mut self, bufs: &[io::IoSlice<'_>]) -> io::Result<usize> {
             self.calls += 1;
-            kani::assume(self.calls <= 6);
+            kani::assume(self.calls <= MAX_CALLS);
             let mut offered = 0usize;
             let mut i = 0;
             while i < bufs.len() {
                 offered += bufs[i].len();
                 i += 1;
             }
-            if bufs.is_empty() || bufs[0].is_empty() {
-                self.saw_empty_first = true;
-            }
+            assert!(!bufs.is_empty() && !bufs[0].is_empty());          // never an empty first buffer
+            assert!(offered == self.total - self.accepted);            // exactly the remaining bytes: nothing duplicated, nothing omitted
             let act: u8 = kani::any();
             match act {
                 0 => Err(io::ErrorKind::Interrupted.into()),
@@ -125,19 +128,7 @@ mod verif_kani {
                 _ => {
                     let k: usize = kani::any();
                     kani::assume(k >= 1 && k <= offered);
-                    // take the first k bytes of the offered slices, in order
-                    let mut left = k;
-                    let mut i = 0;
-                    while i < bufs.len() {
-                        let mut j = 0;
-                        while j < bufs[i].len() && left > 0 {
-                            self.received[self.n] = bufs[i][j];
-                            self.n += 1;
-                            left -= 1;
-                            j += 1;
-                        }
-                        i += 1;
-                    }
+                    self.accepted += k;
                     Ok(k)
                 }
             }
@@ -157,48 +148,39 @@ mod verif_kani {
         }
     }
 
-    #[kani::proof]
-    #[kani::unwind(8)]
-    fn write_all_vectored_scripted_3x2() {
-        let mut concat = [0u8; 8];
-        let mut tot = 0usize;
-        let mut v: SmallVec<[Bytes; 3]> = SmallVec::new();
+    fn check_scripted<const N: usize>() {
+        let mut total = 0usize;
+        let mut v: SmallVec<[Bytes; N]> = SmallVec::new();
         let mut i = 0;
-        while i < 3 {
-            let b = Bytes { data: kani::any(), len: kani::any() };
+        while i < N {
+            let b = Bytes { data: [0xA0 + i as u8, 0xB0 + i as u8], len: kani::any() };
             kani::assume(b.len <= 2);
-            let mut j = 0;
-            while j < b.len {
-                concat[tot] = b.data[j];
-                tot += 1;
-                j += 1;
-            }
+            total += b.len;
             v.push(b);
             i += 1;
         }
-        let mut w = Script { received: [0; 8], n: 0, calls: 0, saw_empty_first: false };
+        let mut w = Script { total, accepted: 0, calls: 0 };
         let r = write_all_vectored(v, &mut w);
-        // never calls the writer with an empty first buffer
-        assert!(!w.saw_empty_first);
-        // whatever happened, what the writer received is a prefix of the concatenation, in order
-        assert!(w.n <= tot);
-        let mut k = 0;
-        while k < w.n {
-            assert!(w.received[k] == concat[k]);
-            k += 1;
-        }
         let ok = r.is_ok();
         match r {
             // success <=> everything was delivered exactly once
             Ok(()) => {
-                assert!(w.n == tot);
+                assert!(w.accepted == total);
             }
             // a zero-length write is surfaced as WriteZero, a hard error unchanged; Interrupted is never surfaced
             Err(e) => {
                 assert!(e.kind() == io::ErrorKind::WriteZero || e.kind() == io::ErrorKind::Other);
             }
         }
-        kani::cover!(ok && w.calls >= 3, "multi-call success reachable");
+        kani::cover!(ok && w.calls >= 2, "multi-call success reachable");
         kani::cover!(!ok, "error reachable");
     }
+
+    #[kani::proof]
+    #[kani::unwind(6)]
+    fn write_all_vectored_scripted_2() { check_scripted::<2>() }
+
+    #[kani::proof]
+    #[kani::unwind(8)]
+    fn write_all_vectored_scripted_3() { check_scripted::<3>() }
 }
